@@ -7,6 +7,10 @@
 (*   loud / loudi   /* c<id> */    /* c<id> #{1 + 1} */                     *)
 (*   bang / bangi   /*! c<id> */   /*! c<id> #{1 + 1} */                    *)
 (*   silent         // c<id>                                                *)
+(*   loud comments whose text starts unusually (text after /* shown):       *)
+(*   l_sph " #c<id>"   l_h "#c<id>"   l_star "* c<id>"   l_slash "/ c<id>"  *)
+(*   l_i0 "#{1 + 1} c<id>"   l_ih " #{$col} c<id>"   l_ihd "#{$col} c<id>"  *)
+(*   ($col: #abc)   l_nl "<newline>n c<id>"   l_nlh "<newline># c<id>"      *)
 (*   decl           m<id>: v;          atstmt   @m<id> x;                   *)
 (*   error          @error "boom";                                          *)
 (* Containers (closed by "close"):                                          *)
@@ -41,6 +45,8 @@
 (*   bang_comment_dropped_compressed   compressed output has no comments    *)
 (*   nsrule_atrule_swallowed  NsRuleDest rejects the at-rule when it is     *)
 (*       finished; the Drop impl prints to stderr and compilation succeeds  *)
+(*   hash_comment_dropped  Comment::write drops every comment whose text    *)
+(*       starts with `#` (Sass: only `# sourceMappingURL=` / `# sourceURL=`) *)
 (*   atrule_decls_hoisted  (the C20 defect seen through comments) what is   *)
 (*       written directly inside an at-rule block nested in a style rule is *)
 (*       collected in one rule placed at the FRONT of the block: a comment  *)
@@ -50,7 +56,10 @@ EXTENDS Integers, Sequences, FiniteSets, TLC
 
 Stmt(k, id) == [k |-> k, id |-> id]
 
-CommentKinds == {"loud", "loudi", "bang", "bangi", "silent"}
+FormKinds    == {"l_sph", "l_h", "l_star", "l_slash", "l_i0", "l_ih", "l_ihd", "l_nl", "l_nlh"}
+CommentKinds == {"loud", "loudi", "bang", "bangi", "silent"} \cup FormKinds
+(* the evaluated text starts directly with `#` (no white space before it) *)
+HashFirst(k) == k \in {"l_h", "l_ihd"}
 MarkKinds    == {"decl", "atstmt"}
 LoopKinds    == {"each2", "for2", "while2"}
 OnceKinds    == {"rule", "nsprop", "media", "atrule", "mixin", "content", "if1", "else", "func", "import", "use", "loadcss"}
@@ -59,9 +68,20 @@ DestKinds    == {"rule", "nsprop", "media", "atrule"}      \* containers that op
 IdStr(n) == CASE n = 0 -> "0" [] n = 1 -> "1" [] n = 2 -> "2" [] n = 3 -> "3" [] n = 4 -> "4" [] n = 5 -> "5"
               [] n = 6 -> "6" [] n = 7 -> "7" [] n = 8 -> "8" [] OTHER -> "9"
 
+(* the comment text with white space collapsed and trimmed *)
+Prefix(k) ==
+  CASE k \in {"bang", "bangi"} -> "! "
+    [] k \in {"l_sph", "l_h"}   -> "#"
+    [] k = "l_star"  -> "* "
+    [] k = "l_slash" -> "/ "
+    [] k = "l_i0"    -> "2 "
+    [] k \in {"l_ih", "l_ihd"}  -> "#abc "
+    [] k = "l_nl"    -> "n "
+    [] k = "l_nlh"   -> "# "
+    [] OTHER         -> ""
+
 CommentText(st, sfx) ==
-  (IF st.k \in {"bang", "bangi"} THEN "! " ELSE "") \o "c" \o IdStr(st.id) \o sfx
-     \o (IF st.k \in {"loudi", "bangi"} THEN " 2" ELSE "")
+  Prefix(st.k) \o "c" \o IdStr(st.id) \o sfx \o (IF st.k \in {"loudi", "bangi"} THEN " 2" ELSE "")
 
 RECURSIVE MatchClose(_, _, _)
 (* index of the close that ends the block whose body starts at j *)
@@ -98,7 +118,8 @@ Exec(prog, j, last, sfx, dests, mode, acc, Dev) ==
             Exec(prog, j + 1, last, sfx, dests, mode,
                  IF st.k = "silent" THEN acc
                  ELSE LET name == "c" \o IdStr(st.id) \o sfx
-                          c == [t |-> CommentText(st, sfx), bang |-> IF st.k \in {"bang", "bangi"} THEN 1 ELSE 0] IN
+                          c == [t |-> CommentText(st, sfx), bang |-> IF st.k \in {"bang", "bangi"} THEN 1 ELSE 0,
+                                hash |-> IF HashFirst(st.k) THEN 1 ELSE 0] IN
                       [acc EXCEPT !.comments = IF mode = "h" THEN @ ELSE Append(@, c),
                                   !.hoist = IF mode = "h" THEN Append(@, c) ELSE @,
                                   !.reached = Append(@, name),
@@ -137,15 +158,17 @@ Run(prog) == RunDev(prog, {})
 (* C36: the comment sequence of the output                                  *)
 
 Comments36(prog, style, Dev) ==
-  LET r == RunDev(prog, Dev) IN
+  LET r  == RunDev(prog, Dev)
+      cs == IF "hash_comment_dropped" \in Dev THEN SelectSeq(r.comments, LAMBDA c : c.hash = 0) ELSE r.comments
+  IN
   IF style = "compressed"
   THEN (IF "bang_comment_dropped_compressed" \in Dev THEN <<>>
-        ELSE LET b == SelectSeq(r.comments, LAMBDA c : c.bang = 1) IN [i \in 1..Len(b) |-> b[i].t])
-  ELSE [i \in 1..Len(r.comments) |-> r.comments[i].t]
+        ELSE LET b == SelectSeq(cs, LAMBDA c : c.bang = 1) IN [i \in 1..Len(b) |-> b[i].t])
+  ELSE [i \in 1..Len(cs) |-> cs[i].t]
 
 Observe36(prog, style, Dev) == [st |-> "ok", comments |-> Comments36(prog, style, Dev)]
 
-AllDevs36 == {"bang_comment_dropped_compressed", "atrule_decls_hoisted"}
+AllDevs36 == {"bang_comment_dropped_compressed", "atrule_decls_hoisted", "hash_comment_dropped"}
 
 RECURSIVE SetToSeq36(_)
 SetToSeq36(S) == IF S = {} THEN <<>> ELSE LET x == CHOOSE x \in S : TRUE IN <<x>> \o SetToSeq36(S \ {x})
